@@ -106,6 +106,9 @@ func genXMLElem(t *Tape, b *strings.Builder, o XMLOpts, depth int) {
 	nk := 1 + t.Small(o.MaxKids)
 	if o.Wide && depth == 1 && t.Draw(2) == 1 {
 		n := 33 + t.Draw(38)
+		if t.Draw(8) == 7 {
+			n = 128 + t.Draw(80) // (anything that treats "large" lists differently starts somewhere)
+		}
 		for i := 0; i < n; i++ {
 			b.WriteString("<item>" + strconv.Itoa(i) + "</item>")
 		}
